@@ -142,11 +142,12 @@ fn c02_special_characters_are_literal_text() {
 /// OBL C02.match.host_then_port_or_query
 #[test]
 fn c02_remainder_after_host_may_start_with_a_port_or_query() {
-    // KNOWN FINDING (known_findings.json): "'||host' pins the match to the request hostname ... with the remainder matching directly after that
-    // host": in `||example.com:8080^` the host is example.com and the remainder is `:8080^`; the parser takes everything up to the first
-    // `/`, `^` or `*` as the host (`example.com:8080`), which no request hostname ever equals
+    // regression input of fix 9f00384: "'||host' pins the match to the request hostname ... with the remainder matching directly after that
+    // host": in `||example.com:8080^` the host is example.com and the remainder is `:8080^` (the parser used to take everything up to the
+    // first `/`, `^` or `*` as the host)
     let mut bad = vec![];
-    for (rule, url) in [("||example.com:8080^", "https://example.com:8080/x"), ("||example.com:8080/x", "https://example.com:8080/x"), ("||example.com?a", "https://example.com?a=1")] {
+    for (rule, url) in [("||example.com:8080^", "https://example.com:8080/x"), ("||example.com:8080/x", "https://example.com:8080/x"), ("||example.com?a", "https://example.com?a=1"),
+                        ("||example.com:8080^", "https://sub.example.com:8080/x"), ("||[::1]:8080^", "https://[::1]:8080/x"), ("||[::1]/x", "https://[::1]/x"), ("||example.com:*/x", "https://example.com:8080/x")] {
         let f = NetworkFilter::parse(rule, true, Default::default()).unwrap();
         let req = Request::new(url, "https://src.test/", "script").unwrap();
         if !f.matches(&req, &mut RegexManager::default()) { bad.push(format!("`{rule}` does not match {url}")); }
@@ -154,5 +155,10 @@ fn c02_remainder_after_host_may_start_with_a_port_or_query() {
     // control: the port-less spelling matches
     let f = NetworkFilter::parse("||example.com^", true, Default::default()).unwrap();
     assert!(f.matches(&Request::new("https://example.com:8080/x", "https://src.test/", "script").unwrap(), &mut RegexManager::default()));
+    for (rule, url) in [("||example.com:8080^", "https://example.com/x"), ("||example.com:8080^", "https://example.com:80801/x"), ("||example.com:8080^", "https://example.com.evil.com:8080/x"), ("||example.com/x", "https://example.com:8080/x")] {
+        let f = NetworkFilter::parse(rule, true, Default::default()).unwrap();
+        let req = Request::new(url, "https://src.test/", "script").unwrap();
+        if f.matches(&req, &mut RegexManager::default()) { bad.push(format!("`{rule}` matches {url}")); }
+    }
     assert!(bad.is_empty(), "{:?}", bad);
 }
